@@ -43,8 +43,15 @@ func init() {
 			if err != nil {
 				return err
 			}
+			x.StrList("notifyOps"+recv, c18LockOps(x, nb))
 			x.StrList("notifyCopies"+recv, c18FieldValues(x, nb, "remainingCopies"))
 			x.StrList("notifyConditions"+recv, c18IfConds(x, nb))
+
+			gc, err := x.Func(dir, recv, "GarbageCollect")
+			if err != nil {
+				return err
+			}
+			x.StrList("garbageCollectCalls"+recv, x.Calls(gc))
 
 			ctor, err := x.Func(dir, "", "New"+recv)
 			if err != nil {
